@@ -143,8 +143,27 @@ CHECKS = {
         "bytes (view and base) must be unchanged.",
         "2-D arrays and scalars to Fluid.water_FVF/gas_FVF are outside the quantifier.",
         "4/C11"),
-    "C12": (False, EX, "", "", "", "4/C12"),
-    "C13": (False, EX, "", "", "", "4/C13"),
+    "C12": (
+        True, EX,
+        "complete enumeration of a T x API x gas gravity x GOR lattice of oils, each with pressures "
+        "within 1..4 ulp and 1e-9 of the bubble point and dense one-sided pressure ladders",
+        "For each of the 486 (quick) / 3.5k (thorough) oils with bubble point > 50 psia: one-sided "
+        "values of R_s, B_o, rho_o, mu_o at p_b(1 +- 1e-9) and +-1..4 ulp agree with the value at p_b to "
+        "1e-6; R_s non-decreasing, bounded by and equal to the initial GOR at/above p_b, and "
+        "p_b(R_s(p)) = p to 1e-8 p_b; B_o strictly rising below / falling above; mu_o strictly falling "
+        "below; undersaturated compressibility and viscosity positive and finite.",
+        "Nothing is claimed between lattice points.", "4/C12"),
+    "C13": (
+        True, EX,
+        "complete lattice enumeration with forward-mode automatic differentiation of the parent's own "
+        "code (dual numbers) as the reference derivative",
+        "At every lattice point the hand-coded derivative (dBw/dp, dRs/dp, dBo/dRs) is compared to "
+        "1e-12 with the dual part obtained by running the library's parent function on a dual number; "
+        "dRs/dp must be exactly 0 at/above p_b (p/p_b in {1-1e-6, 1, 1+1e-6, next/prev float}); the "
+        "all-pressure compressibility must equal the undersaturated correlation at/above p_b and its "
+        "defining combination of the library's own B_g, dRs/dp and dBo/dRs below, for two pseudocritical points.",
+        "The dual-number class reproduces the operators the parents use; the FVF in the denominator of "
+        "the saturated compressibility may be the bubble-point or the current one.", "4/C13"),
     "C14": (False, EX, "", "", "", "4/C14"),
     "C15": (False, EX, "", "", "", "4/C15"),
     "C16": (False, EX, "", "", "", "4/C16"),
@@ -163,7 +182,17 @@ CHECKS = {
         "increasing grids.",
         "4/C17"),
     "C18": (False, EX, "", "", "", "4/C18"),
-    "C19": (False, EX, "", "", "", "4/C19"),
+    "C19": (
+        True, EX,
+        "complete enumeration of Fluid parameter sets x methods x pressures, of build_pvt_gas "
+        "(gravity x contaminants x dryness x maximum pressure) tables row by row, and of Sutton "
+        "reduction / rejection clauses; call-order permutations for purity",
+        "Every Fluid method is compared to 1e-14 with the stand-alone correlation evaluated with the "
+        "object's attributes (parameter sets pairwise distinct so swapped/dropped arguments show); every "
+        "row of every table equals the stand-alone gas correlations at the Sutton point to 1e-12 on the "
+        "grid 10, 20, ... < maximum; each table is built after neighbouring tables that differ in one "
+        "argument, and a set of builder calls is evaluated in three orders with bitwise-equal results.",
+        "Hydrocarbon-only Sutton polynomials as transcribed.", "4/C19"),
     "C20": (False, EX, "", "", "", "4/C20"),
 }
 
